@@ -55,7 +55,12 @@ def case_term(d) -> str:
 
 # ------------------------------------------------------------------ implementation side
 def _code(v) -> int:
-    return v if isinstance(v, int) else OBJ0 + v.idx
+    """what the body saw: an int, one of the world's objects (100+idx), or -5 for anything else
+    (e.g. the body was run on a query-variable object)"""
+    if isinstance(v, int):
+        return v
+    idx = getattr(v, "idx", None)
+    return OBJ0 + idx if isinstance(idx, int) and not isinstance(idx, bool) and type(v).__name__ == "Obj" else -5
 
 
 def pname(p: int) -> str:
@@ -63,6 +68,13 @@ def pname(p: int) -> str:
 
 
 def run_impl(d) -> Any:
+    try:
+        return _run_impl(d)
+    except Exception as e:  # noqa -- anything the outcome grammar does not foresee is itself an outcome
+        return [99, sum(map(ord, type(e).__name__))]
+
+
+def _run_impl(d) -> Any:
     """Execute one case against the real implementation through the public API.
     Outcome: concrete  [0, result | -1 (TypeError), [values seen by the body per call]]
              symbolic  [1, 0 | -1 (TypeError while evaluating) | n>0 (body ran n times at construction), calls, rows]"""
@@ -247,7 +259,7 @@ def fill(rng: core.Rng, pred: bool, n: int, ndef: int, k: int, kws: List[int], s
     args = [sym_arg(rng, owner[i]) if symmask >> i & 1 else lit_arg(rng, len(objs)) for i in range(written)]
     used = sorted({v for a in args for v in arg_vars(a)} | set(pre))
     sel = used if (len(used) < 2 or rng.chance(0.8)) else [rng.choice(used)]
-    tbl = [rng.randint(0, 2) for _ in range(3 ** n)]
+    tbl = [rng.choice([0, 0, 0, 1, 1, 2]) for _ in range(3 ** n)]
     if all(t == 0 for t in tbl) or all(t != 0 for t in tbl):
         tbl[rng.randint(0, len(tbl) - 1)] = 0 if tbl[0] else 1
     defaults = [[p, rng.randint(0, 2)] for p in params[n - ndef:]]
@@ -258,9 +270,9 @@ def fill(rng: core.Rng, pred: bool, n: int, ndef: int, k: int, kws: List[int], s
 
 def gen_cases(tier: str, seed: int) -> List[dict]:
     rng = core.Rng(seed)
-    nmax = 3 if tier == "quick" else 4
+    nmax, reps = (3, 2) if tier == "quick" else (4, 3)
     out = []
-    for pred in (False, True):
+    for pred in (False, True) * reps:
         for n in range(1, nmax + 1):
             for ndef in range(0, n + 1):
                 for k, kws in call_shapes(n, ndef):
@@ -382,19 +394,30 @@ def run(tier: str, seed: int, replay=None) -> int:
                 "parameters are omitted x keyword order (natural / reversed) x every variable/concrete split (quick N=3, thorough N=4); per combination one "
                 "case with each symbolic argument over its own or an already bound variable and, for >= 2 symbolic arguments, one with a shared open variable; "
                 "worlds, attribute chains, defaults and the body's truth table drawn from VERIF_SEED; plus a malformed stream. "
-                "distinct = distinct case description; non-trivial = symbolic with at least one true and one false call, or concrete")
+                "distinct = distinct case description; non-trivial = concrete call, or symbolic with >= 2 different calls of which at least one is true and one false")
     ok_spec, log = core.coq_make(["Base/Sx.vo", "Eql/PredSpec.vo", "Eql/PredCase.vo"])
     rep.oblige("build:spec", ok_spec, "" if ok_spec else core.first_error(log))
+    try:
+        t_pred.translate(str(core.REPO))
+    except Exception:  # noqa -- the translator refuses: never evaluate cases against the compiled model of an older source
+        for ext in (".vo", ".vos", ".vok", ".glob"):
+            (core.COQ / "Gen" / ("Pred" + ext)).unlink(missing_ok=True)
     model_ok = core.standard_proof_steps(
         rep, PROP, ["Props/C12.vo"],
         regen=[("Gen/Pred.v", lambda: t_pred.translate(str(core.REPO)), core.COQ / "Gen" / "Pred.v")])
+    if model_ok and tier == "thorough" and not replay:
+        rc, out = core.sh(["timeout", "600", "coqchk", "-silent", "-o", "-Q", ".", "Krrood", "Krrood.Props.C12"], cwd=core.COQ, timeout=630)
+        rep.oblige("coqchk:Props/C12.vo", rc == 0 and "Axioms: <none>" in out.replace("\n", " "), out.strip()[-400:])
     header, fn = (HEADER, "case_code") if model_ok else (HEADER_SPEC, "case_code_spec")
     if not model_ok:
         rep.note("model not available; comparing the implementation with the Spec only (search for a failing input)")
 
-    if replay:
+    if replay and "case" in replay:
         descrs = [replay["case"]]
     else:
+        if replay:
+            rep.note("replay of a broken obligation: re-running the whole check against the current tree")
+            replay = None
         descrs = []
         cdir = core.VERIF / "corpus" / PROP
         if cdir.is_dir():
@@ -412,8 +435,9 @@ def run(tier: str, seed: int, replay=None) -> int:
     for c, code in zip(cases, codes):
         d = c.descr
         cls, k = divmod(code, 100)
-        sym = c.impl[0] == 1
-        nontrivial = (not sym) or (len({bool(r) for r in [1] * len(c.impl[3]) + [0] * (len(c.impl[2]) - len(c.impl[3]))}) == 2)
+        sym = c.impl[0] == 1 and len(c.impl) == 4
+        nontrivial = c.impl[0] == 0 or (sym and 0 < len(c.impl[3]) and len({tuple(x) for x in c.impl[2]}) > 1
+                                        and (len(c.impl[3]) < len(c.impl[2]) or cls == 1))
         rep.count(c.key, nontrivial)
         dist[["F", "K_predshare", "malformed"][cls]] += 1
         dist["symbolic" if sym else "concrete"] += 1
@@ -435,7 +459,16 @@ def run(tier: str, seed: int, replay=None) -> int:
         if k in (1, 4) and cls == 0:
             rep.oblige("correspondence:model", False, f"model differs from impl (=spec) on {c.key[:300]}")
             continue
+        if cls == 2:
+            # a call Python itself rejects: the property is silent; a difference only says the model is not faithful here
+            rep.oblige("correspondence:model-malformed", False, f"model differs from impl on the malformed call {c.key[:300]}")
+            continue
+        if cls == 1 and not model_ok:
+            # without the model an instance of the known finding cannot be told from a new failure in the same class
+            dist["K_predshare_unverified_model_unavailable"] = dist.get("K_predshare_unverified_model_unavailable", 0) + 1
+            continue
         bad.append((c, code))
+    bad.sort(key=lambda cc: (cc[1] // 100 != 0, len(cc[0].key)))     # smallest case of the proved fragment first
     rep.extra["distribution"] = dist
     rep.extra["exhaustive"] = "call shapes exhaustive up to the stated arity; worlds and expressions sampled"
     step = max(1, len(cases) // 6)
